@@ -2,6 +2,7 @@ import Driver.C17
 import Driver.Store
 import Driver.UUIDp
 import Driver.Lex
+import Driver.Parse
 
 def main (args : List String) : IO UInt32 := do
   match args with
@@ -9,6 +10,7 @@ def main (args : List String) : IO UInt32 := do
   | ["store", mode] => Driver.Store.main mode; return 0
   | ["uuid", mode] => Driver.UUIDp.main mode; return 0
   | ["lex"] => Driver.Lex.main; return 0
+  | ["parse"] => Driver.Parse.main; return 0
   | _ =>
     IO.eprintln "usage: bwdriver <protocol>"
     return 2
